@@ -4,7 +4,7 @@
 
 use std::str::FromStr;
 
-use chrono::{DateTime, Duration, NaiveDate, NaiveDateTime, TimeZone};
+use chrono::{Datelike, DateTime, Duration, NaiveDate, NaiveDateTime, TimeZone};
 use chrono_tz::Tz;
 use opening_hours::localization::{Coordinates, Country, Localize, NoLocation, TzLocation};
 use opening_hours::{Context, ContextHolidays, DateTimeRange, OpeningHours, DATE_END};
@@ -50,6 +50,14 @@ fn end_or_null(v: Value, is_end: bool) -> Value {
 
 fn eval_naive(oh: &OpeningHours<NoLocation>, t: NaiveDateTime, input_tz: Option<Tz>, skip_window: bool) -> Value {
     let st = oh.state(t);
+    // the window with differently given bounds: both are read on their own wall clock; results carry the zone of the start, else of the end (UTC)
+    let mixed_tz = input_tz.or(Some(chrono_tz::UTC));
+    let mixed: Vec<Value> = if t.date().year() >= 9999 { Vec::new() } else {
+        oh.iter_range(t, t + Duration::days(3)).take(12)
+            .map(|r| json!([attach(r.range.start, mixed_tz), end_or_null(attach(r.range.end, mixed_tz), r.range.end == DATE_END),
+                            r.kind.as_str(), r.comments.iter().map(|c| c.to_string()).collect::<Vec<_>>()]))
+            .collect()
+    };
     let n = oh.normalize();
     let ivs = |it: Vec<DateTimeRange<NaiveDateTime>>| -> Vec<Value> {
         it.iter()
@@ -70,10 +78,11 @@ fn eval_naive(oh: &OpeningHours<NoLocation>, t: NaiveDateTime, input_tz: Option<
         "norm": {"state": n.state(t).as_str(), "next_change": n.next_change(t).map(|x| attach(x, input_tz)).unwrap_or(Value::Null),
                  "intervals": ivs(n.iter_from(t).take(3).collect())},
         "interleaved": ivs(oh.iter_from(t).take(4).collect()),
+        "intervals_mixed": mixed,
     })
 }
 
-fn eval_aware(oh: &OpeningHours<TzLocation<Tz>>, t: DateTime<Tz>, end: DateTime<Tz>, skip_window: bool) -> Value {
+fn eval_aware(oh: &OpeningHours<TzLocation<Tz>>, t: DateTime<Tz>, end: DateTime<Tz>, end_mixed: Option<DateTime<Tz>>, skip_window: bool) -> Value {
     let st = oh.state(t);
     let n = oh.normalize();
     let ivs = |it: Vec<DateTimeRange<DateTime<Tz>>>| -> Vec<Value> {
@@ -93,6 +102,7 @@ fn eval_aware(oh: &OpeningHours<TzLocation<Tz>>, t: DateTime<Tz>, end: DateTime<
         "norm": {"state": n.state(t).as_str(), "next_change": n.next_change(t).map(|d| aware_json(&d)).unwrap_or(Value::Null),
                  "intervals": ivs(n.iter_from(t).take(3).collect())},
         "interleaved": ivs(oh.iter_from(t).take(4).collect()),
+        "intervals_mixed": match end_mixed { Some(e) => ivs(oh.iter_range(t, e).take(12).collect()), None => Vec::new() },
     })
 }
 
@@ -151,7 +161,14 @@ pub fn core(args: &Args) {
                             Some(z) => z.from_local_datetime(&later).earliest().unwrap_or_else(|| z.from_utc_datetime(&later)).with_timezone(loc.get_timezone()),
                             None => loc.datetime(later),
                         };
-                        eval_aware(&oh, t, end, skip_window)
+                        // the other bound of the mixed window: naive (= wall clock of the context zone) for an aware input, UTC for a naive one
+                        let end_mixed: Option<DateTime<Tz>> = if naive.date().year() >= 9999 { None } else {
+                            Some(match input_tz {
+                                Some(_) => loc.datetime(later),
+                                None => chrono_tz::UTC.from_utc_datetime(&later).with_timezone(loc.get_timezone()),
+                            })
+                        };
+                        eval_aware(&oh, t, end, end_mixed, skip_window)
                     }
                 };
 
